@@ -268,10 +268,11 @@ theorem runPair_frame (ops : List (Side × HOp)) : ∀ (a b : Cfg),
 
 /-! ### sessions: the executor's loop over tasks whose bodies edit the shared configuration -/
 
-/-- one executed task: how it was called, the settings along its namespace path, the environment
+/-- one executed task: whether the collection does NOT hold the task object (then it gets the root's
+    settings), the settings along the namespace path of the name it was called by (or, unnamed, of its first binding), the environment
     at its start, and the effective edits its body performs on `context.config` -/
 structure TaskRun where
-  none : Bool
+  unheld : Bool
   cfgs : List KVs
   environ : List (List Char × List Char)
   body : List Edit
@@ -283,7 +284,7 @@ def applyEdits (c : Cfg) (es : List Edit) : Cfg :=
 /-- the configuration after a sequence of tasks (per task: `taskStep`, then the body) -/
 def sessionState (c : Cfg) : List TaskRun → Except CErr Cfg
   | [] => .ok c
-  | t :: ts => match c.taskStep t.none t.cfgs t.environ with
+  | t :: ts => match c.taskStep t.unheld t.cfgs t.environ with
     | .error e => .error e
     | .ok c1 => sessionState (applyEdits c1 t.body) ts
 
